@@ -199,7 +199,7 @@ impl Display for PrettyDecimal {
                 // Here we assume mantissa is all ASCII (given it's [0-9.]+)
                 let mut initial_integer = true;
                 // caluclate the first comma position out of the integral portion digits.
-                let mut comma_pos = (mantissa.len() - scale) % 3;
+                let mut comma_pos = mantissa.len().saturating_sub(scale) % 3;
                 if comma_pos == 0 {
                     comma_pos = 3;
                 }
@@ -216,8 +216,9 @@ impl Display for PrettyDecimal {
                 if initial_integer {
                     write!(f, "0")?;
                 }
-                if !remainder.is_empty() {
-                    write!(f, ".{}", remainder)?;
+                if scale > 0 {
+                    // mantissa can be shorter than scale, such as 0.012.
+                    write!(f, ".{:0>width$}", remainder, width = scale)?;
                 }
                 Ok(())
             }
